@@ -135,3 +135,5 @@ check("C10",
       level_note="skip-count extension, cancel-before-reopen ordering and queued extensions are checked in the transport harness")
 CHECKS["C06"]["packages"] = ["l1chan", "l2node"]
 CHECKS["C02"]["packages"] = ["l1chan", "l2node"]
+
+CHECKS["C09"]["packages"] = ["l1chan", "l2node"]
